@@ -74,6 +74,7 @@ def _task(prog):
     out = dict(src=src, gprog=c03.g_prog(p.scopes[0]), occs=[], names={})
     script = jedi.Script(src)
     cache = {}
+    backs = []
 
     def refs_from(o):
         if o.oid in cache:
@@ -125,18 +126,20 @@ def _task(prog):
                 rec['text'] = dict(new=new_code,
                                    leaves=[(pr, v, (sp in sel)) for (pr, v, sp) in leaves],
                                    renames=[(str(a), str(b)) for a, b in ref.get_renames()])
-                # rename back: byte for byte
-                try:
-                    s2 = jedi.Script(new_code)
-                    back = s2.rename(o.line, o.col, new_name=o.name).get_changed_files()
-                    rec['text']['back'] = back[None].get_new_code() if None in back else new_code
-                except Exception as e:
-                    rec['text']['back_exc'] = common.exc_sig(e)
-                # behaviour
-                rec['text']['trace_equal'] = run_trace(new_code) == trace
+                backs.append((rec, o, new_code))
             except Exception as e:
                 rec['rename_exc'] = common.exc_sig(e)
         out['occs'].append(rec)
+    # renaming back and running happen only now: a new path-less Script re-parses incrementally
+    # and thereby invalidates the tree of the Script used above
+    for rec, o, new_code in backs:
+        try:
+            s2 = jedi.Script(new_code)
+            back = s2.rename(o.line, o.col, new_name=o.name).get_changed_files()
+            rec['text']['back'] = back[None].get_new_code() if None in back else new_code
+        except Exception as e:
+            rec['text']['back_exc'] = common.exc_sig(e)
+        rec['text']['trace_equal'] = run_trace(new_code) == trace
     return out
 
 
